@@ -137,11 +137,12 @@ func (s *SignerGen) bestForKey(
 	}
 	expiry := minTime(chain[0].NotAfter, trcs[0].TRC.Validity.NotAfter)
 	if inGrace {
-		// In the grace period the expiry is the minimum of the chain expiry,
-		// the grace period defined in the new TRC, and the expiry of the
-		// previous TRC.
+		// In the grace period the expiry is additionally bounded by the grace
+		// period defined in the new TRC, and the expiry of the previous TRC.
+		// The expiry of the new TRC still applies: nothing keeps its grace
+		// period from being longer than its validity.
 		expiry = minTime(
-			minTime(chain[0].NotAfter, trcs[0].TRC.GracePeriodEnd()),
+			minTime(expiry, trcs[0].TRC.GracePeriodEnd()),
 			trcs[1].TRC.Validity.NotAfter,
 		)
 	}
